@@ -18,6 +18,154 @@ JOIN_SPELLINGS = ('JOIN', 'INNER JOIN', 'LEFT JOIN', 'LEFT OUTER JOIN', 'RIGHT J
                   'FULL JOIN', 'FULL OUTER JOIN', 'CROSS JOIN')
 
 
+# ----------------------------------------------------------------------------------------------- set-operation trees
+# a tree is ('L', i) -- the i-th operand SELECT -- or ('N', key, left, right); keys as the Lean driver spells them
+SETOP_LEAVES = ('SELECT a FROM t', 'SELECT b FROM t', 'SELECT a FROM u', 'SELECT c FROM u')
+SETOP_KEYS = ('UNION', 'UNION_ALL', 'INTERSECT', 'EXCEPT', 'INTERSECT_ALL', 'EXCEPT_ALL')
+SETOP_SQLITE = SETOP_KEYS[:4]
+
+
+def tree_shapes(n):
+    """all binary tree shapes with n operations"""
+    if n == 0:
+        yield 'L'
+        return
+    for k in range(n):
+        for l in tree_shapes(k):
+            for r in tree_shapes(n - 1 - k):
+                yield (l, r)
+
+
+def tree_fill(shape, ops, leaves):
+    """shape + iterator of operation keys + iterator of leaf numbers -> tree"""
+    if shape == 'L':
+        return ('L', next(leaves))
+    op = next(ops)
+    l = tree_fill(shape[0], ops, leaves)
+    return ('N', op, l, tree_fill(shape[1], ops, leaves))
+
+
+def tree_random(rng, n, keys, nleaves):
+    if n == 0:
+        return ('L', rng.randrange(nleaves))
+    k = rng.randrange(n)
+    return ('N', rng.choice(keys), tree_random(rng, k, keys, nleaves), tree_random(rng, n - 1 - k, keys, nleaves))
+
+
+def tree_depth(t):
+    return 0 if t[0] == 'L' else 1 + max(tree_depth(t[2]), tree_depth(t[3]))
+
+
+def tree_nesting(t):
+    """(some operation has a compound LEFT operand, … a compound RIGHT operand)"""
+    if t[0] == 'L':
+        return (False, False)
+    a, b = tree_nesting(t[2]), tree_nesting(t[3])
+    return (a[0] or b[0] or t[2][0] == 'N', a[1] or b[1] or t[3][0] == 'N')
+
+
+def tree_line(t):
+    return 'L %d' % t[1] if t[0] == 'L' else 'N %s %s %s' % (t[1], tree_line(t[2]), tree_line(t[3]))
+
+
+def tree_sql(t, leaves=SETOP_LEAVES, paren_left=lambda: True):
+    """the statement as a user writes it: a compound RIGHT operand needs its parentheses, a compound LEFT operand may
+    have them (without, the library's parser groups a chain left to right -- the same tree)"""
+    if t[0] == 'L':
+        return leaves[t[1]]
+    l, r = tree_sql(t[2], leaves, paren_left), tree_sql(t[3], leaves, paren_left)
+    if t[2][0] == 'N' and paren_left():
+        l = '(%s)' % l
+    if t[3][0] == 'N':
+        r = '(%s)' % r
+    return '%s %s %s' % (l, t[1].replace('_', ' '), r)
+
+
+def tree_ref_sql(t, leaves=SETOP_LEAVES):
+    """the same tree in a form sqlite executes: every compound operand is a derived table (written here from the
+    tree, independently of the renderer)"""
+    if t[0] == 'L':
+        return leaves[t[1]]
+    l, r = tree_ref_sql(t[2], leaves), tree_ref_sql(t[3], leaves)
+    if t[2][0] == 'N':
+        l = 'SELECT * FROM (%s)' % l
+    if t[3][0] == 'N':
+        r = 'SELECT * FROM (%s)' % r
+    return '%s %s %s' % (l, t[1].replace('_', ' '), r)
+
+
+def tree_of_ast(node, leaf_no):
+    """the tree of a parsed statement (leaf_no: text of an operand SELECT -> number), None when it is not one"""
+    from mindsdb_sql.parser import ast as A
+    for cls, key in ((A.Union, 'UNION'), (A.Intersect, 'INTERSECT'), (A.Except, 'EXCEPT')):
+        if type(node) is cls:
+            l, r = tree_of_ast(node.left, leaf_no), tree_of_ast(node.right, leaf_no)
+            if l is None or r is None:
+                return None
+            return ('N', key + ('' if node.unique else '_ALL'), l, r)
+    if isinstance(node, A.Select):
+        i = leaf_no(node)
+        return None if i is None else ('L', i)
+    return None
+
+
+def tree_ast(t, leaf_ast):
+    from mindsdb_sql.parser import ast as A
+    if t[0] == 'L':
+        return leaf_ast(t[1])
+    cls = {'UNION': A.Union, 'INTERSECT': A.Intersect, 'EXCEPT': A.Except}[t[1].split('_')[0]]
+    return cls(left=tree_ast(t[2], leaf_ast), right=tree_ast(t[3], leaf_ast), unique=not t[1].endswith('_ALL'))
+
+
+SETOP_TOKEN = re.compile(
+    r'\s*(?:(?P<d>SELECT \* FROM \()|(?P<dc>\) AS anon_\d+)|(?P<lp>\()|(?P<rp>\))|'
+    r'(?P<op>(?:UNION|INTERSECT|EXCEPT)(?: ALL)?)(?![\w]))')
+
+
+def setop_structure(text, leaf_texts):
+    """the text structure of a rendered set operation in the spelling of `RenderSetOps.RText.show`:
+    S<i> for the text of operand SELECT i, `D[ … ]` for `SELECT * FROM (…) AS anon_k`, `( … )`, operator keys;
+    a string starting with `?` when the text is something else"""
+    order = sorted(range(len(leaf_texts)), key=lambda i: -len(leaf_texts[i]))
+    out, pos, n = [], 0, len(text)
+    while pos < n:
+        if text[pos].isspace():
+            pos += 1
+            continue
+        for i in order:
+            lt = leaf_texts[i]
+            if text.startswith(lt, pos) and (pos + len(lt) == n or not (text[pos + len(lt)].isalnum() or text[pos + len(lt)] in '_.')):
+                # `SELECT * FROM (` must not be mistaken for a leaf, nor a leaf that is a prefix of a longer one
+                out.append('S%d' % i)
+                pos += len(lt)
+                break
+        else:
+            m = SETOP_TOKEN.match(text, pos)
+            if not m:
+                return '?' + text
+            out.append('D[' if m.group('d') else ']' if m.group('dc') else '(' if m.group('lp') else ')' if m.group('rp')
+                       else m.group('op').replace(' ', '_'))
+            pos = m.end()
+    return ' '.join(out)
+
+
+def setop_dbs(rng, n):
+    """contents with many shared values between the operand columns (t.a, t.b, u.a, u.c) and with duplicates"""
+    dbs = [{'t': ((1, 1), (2, 1), (2, None)), 'u': ((1, 2), (None, 1), (2, 2))},
+           {'t': ((1, 1),), 'u': ((1, 1),)},
+           {'t': ((0, 1), (1, 0), (1, 1), (None, None)), 'u': ((1, None), (0, 0), (1, 1))}]
+    while len(dbs) < n:
+        vals = rng.choice(((None, 0, 1), (0, 1), (None, 0, 1, 2), (1, 2)))
+        dbs.append({k: tuple(tuple(rng.choice(vals) for _ in range(2)) for _ in range(rng.randint(1, 4))) for k in ('t', 'u')})
+    return dbs[:n]
+
+
+def setop_tabs(content):
+    """rows of the four operand SELECTs"""
+    t, u = content.get('t', ()), content.get('u', ())
+    return [[(r[0],) for r in t], [(r[1],) for r in t], [(r[0],) for r in u], [(r[1],) for r in u]]
+
+
 # ----------------------------------------------------------------------------------------------- databases
 def all_tables(max_rows, ncols=2):
     rows = list(itertools.product(VALUES, repeat=ncols))
@@ -633,6 +781,113 @@ class Gen:
             s += ' WHERE ' + pred
         return s, False, []
 
+    def nested_scope(self):
+        """a chain of 2-3 nested expression sub-queries (EXISTS / IN / scalar, in WHERE or in the select list) whose FROM
+        lists -- single tables, comma lists of 2-3 entries, explicit joins -- repeat an entry of an ENCLOSING level under
+        the same visible name: the same table with the same alias, or un-aliased both times.  In SQL the inner entry
+        hides the outer one; every FROM list must arrive in the rendered text in full.
+        returns (text, levels) -- levels: per nesting level the FROM entries ('t', table, alias) / ('j', [(table, alias)…])"""
+        rng = self.rng
+        nlev = 2 if rng.random() < 0.6 else 3
+        name = lambda e: e[1] or e[0]
+        ref = lambda e: e[0] if e[1] is None else '%s AS %s' % e
+        cols = lambda e: ['%s.%s' % (name(e), c) for c in SCHEMA[e[0]]]
+        levels = []
+        for k in range(nlev):
+            n = rng.choice((1, 2, 2, 3)) if k else rng.choice((1, 1, 2, 2))
+            ents = []
+            enclosing = [e for lv in levels for e in lv['ents']]
+            if k and rng.random() < 0.8:
+                e = rng.choice(enclosing)
+                ents.append(e)
+                self.f('nested-scope:repeat-' + ('aliased' if e[1] else 'unaliased'))
+                if rng.random() < 0.85:
+                    n = max(n, 2)
+            for _ in range(30):
+                if len(ents) >= n:
+                    break
+                e = (rng.choice(('t', 'u')), rng.choice((None, None, 'x', 'y', 'z')))
+                if name(e) not in [name(x) for x in ents]:
+                    ents.append(e)
+            rng.shuffle(ents)
+            form = 'join' if len(ents) >= 2 and rng.random() < (0.4 if k == 0 else 0.15) else 'comma'
+            levels.append(dict(ents=ents, form=form))
+        self.f('nested-scope')
+        self.f('nested-scope:levels=%d' % nlev)
+        text = None
+        for k in reversed(range(nlev)):
+            lv = levels[k]
+            ents = lv['ents']
+            own = [c for e in ents for c in cols(e)]
+            if lv['form'] == 'join':
+                self.f('nested-scope:join')
+                frm = ref(ents[0])
+                for i, e in enumerate(ents[1:]):
+                    sp = rng.choice(('JOIN', 'LEFT JOIN', 'INNER JOIN'))
+                    frm += ' %s %s ON %s = %s' % (sp, ref(e), rng.choice(cols(ents[i])), rng.choice(cols(e)))
+            else:
+                if len(ents) > 1:
+                    self.f('nested-scope:comma')
+                frm = ', '.join(ref(e) for e in ents)
+            conds = []
+            if len(ents) >= 2 and lv['form'] == 'comma' and rng.random() < 0.7:
+                conds.append('%s %s %s' % (rng.choice(cols(ents[0])), rng.choice(('=', '=', '<', '<>')), rng.choice(cols(ents[1]))))
+            hidden = {name(e) for e in ents}
+            outer = []
+            for j in reversed(range(k)):
+                for e in levels[j]['ents']:
+                    if name(e) not in hidden:
+                        outer += cols(e)
+                        hidden.add(name(e))
+            if outer and rng.random() < 0.5:
+                self.f('nested-correlated')
+                conds.append('%s %s %s' % (rng.choice(own), rng.choice(('=', '<', '<>', '>=')), rng.choice(outer)))
+            if rng.random() < 0.3:
+                conds.append(self.expr(own, 1, True, sub=False))
+            target_sub = None
+            if text is not None:
+                inner, ikind = text
+                if ikind in ('IN', 'NOT IN'):
+                    conds.append('%s %s (%s)' % (rng.choice(own), ikind, inner))
+                elif ikind in ('EXISTS', 'NOT EXISTS'):
+                    conds.append('%s (%s)' % (ikind, inner))
+                elif ikind == 'scalar':
+                    conds.append('%s %s (%s)' % (rng.choice(own), rng.choice(('=', '<', '>=', '<>')), inner))
+                else:
+                    target_sub = '(%s)' % inner
+            rng.shuffle(conds)
+            where = ' WHERE ' + ' AND '.join(conds) if conds else ''
+            if k == 0:
+                ts = rng.sample(own, min(len(own), rng.randint(1, 2)))
+                if target_sub:
+                    ts.append(target_sub)
+                text = 'SELECT %s FROM %s%s' % (', '.join(ts), frm, where)
+                break
+            kind = rng.choice(('IN', 'NOT IN', 'EXISTS', 'EXISTS', 'NOT EXISTS', 'scalar', 'scalar-target'))
+            self.f('subq:' + kind)
+            if kind in ('scalar', 'scalar-target'):
+                tg = rng.choice(('count(*)', '%s(%s)' % (rng.choice(('max', 'min', 'count', 'sum')), rng.choice(own))))
+                self.f('agg')
+            elif kind in ('EXISTS', 'NOT EXISTS') and rng.random() < 0.5:
+                tg = '1'
+            else:
+                tg = rng.choice(own)
+            if target_sub:
+                # a sub-query in the select list of a sub-query: only where one value is selected anyway
+                tg = target_sub if kind in ('EXISTS', 'NOT EXISTS') else tg
+                if tg != target_sub:
+                    conds.append('%s IS NOT NULL' % target_sub)
+                    where = ' WHERE ' + ' AND '.join(conds)
+            text = ('SELECT %s FROM %s%s' % (tg, frm, where), kind)
+        out = []
+        for lv in levels:
+            if lv['form'] == 'join':
+                out.append([('j', [tuple(e) for e in lv['ents']])])
+            else:
+                out.append([('t',) + tuple(e) for e in lv['ents']])
+        self.scope_levels = out
+        return text, False, []
+
     def having_no_group(self):
         """aggregates over the single implicit group with HAVING and no GROUP BY: top level, IN / scalar sub-query,
         CTE body, INSERT … SELECT source"""
@@ -667,6 +922,26 @@ class Gen:
 
     def setop(self):
         rng = self.rng
+        if rng.random() < 0.5:
+            # a tree of operations with explicit operand grouping (any shape); sqlite cannot execute the parenthesised
+            # text, so the case carries the same tree with its compound operands as derived tables (`exec_text`)
+            n = rng.choice((2, 2, 3, 3, 4))
+            leaves = []
+            while len(leaves) < n + 1:
+                # (no RIGHT / FULL JOIN operands: sqlite 3.40 mis-executes them inside a derived UNION ALL, on either side)
+                q = self.simple_select(1, ncols=2)
+                if ' RIGHT ' not in q and ' FULL ' not in q:
+                    leaves.append(q)
+            t = tree_random(rng, n, SETOP_SQLITE, len(leaves))
+            self.f('setop-tree')
+            self.f('setop-tree:depth=%d' % tree_depth(t))
+            nl, nr = tree_nesting(t)
+            if nl:
+                self.f('setop-tree:left-nested')
+            if nr:
+                self.f('setop-tree:right-nested')
+            self.exec_text = tree_ref_sql(t, leaves)
+            return tree_sql(t, leaves, lambda: rng.random() < 0.5), False, []
         op = rng.choice(('UNION', 'UNION ALL', 'INTERSECT', 'EXCEPT'))
         self.f('setop:' + op)
         l = self.simple_select(1, ncols=2)
@@ -754,12 +1029,17 @@ class Gen:
         self.feats = set()
         self.strs = set()
         self.order_keys = None
+        self.exec_text = None
+        self.scope_levels = None
         r = self.rng.random()
-        if r < 0.57:
+        if r < 0.52:
             text, ordered, alias = self.select()
             kind = 'select'
-        elif r < 0.66:
+        elif r < 0.59:
             text, ordered, alias = self.nested_same_table()
+            kind = 'select'
+        elif r < 0.66:
+            text, ordered, alias = self.nested_scope()
             kind = 'select'
         elif r < 0.76:
             text, ordered, alias = self.setop()
@@ -771,5 +1051,10 @@ class Gen:
             (text, kind), ordered, alias = self.having_no_group(), False, []
         else:
             text, ordered, alias, kind = self.dml(), False, [], 'dml'
-        return dict(kind=kind, text=text, ordered=ordered, alias=alias, feats=sorted(self.feats),
-                    order_keys=self.order_keys if kind == 'select' and ordered else None, strs=sorted(self.strs))
+        out = dict(kind=kind, text=text, ordered=ordered, alias=alias, feats=sorted(self.feats),
+                   order_keys=self.order_keys if kind == 'select' and ordered else None, strs=sorted(self.strs))
+        if self.exec_text:
+            out['exec_text'] = self.exec_text
+        if self.scope_levels:
+            out['scope_levels'] = self.scope_levels
+        return out
